@@ -5,7 +5,7 @@ child).  It is *text* so that the module ariadne-codegen's plugin explorer impor
   IdentityPlugin   overrides no hook (the property's "plugin overriding no hook").
   RecorderFirst    an identity plugin too, but every hook *observes*: it appends a canonical snapshot
   RecorderLast     of the object it is handed (and of the hook's extra arguments it needs) to
-                   <target_package_path>/verif_record_<first|last>.json.  Placed first in the plugin
+                   the module-level EVENTS lists.  Placed first in the plugin
                    list it sees what the generator hands to the plugin manager; placed last it sees
                    what the configured plugins made of it.  Snapshots are taken at hook time because the
                    bundled plugins mutate the ASTs in place afterwards.
@@ -121,14 +121,15 @@ def module(node):
     return {"body": [stmt(s) for s in node.body]}
 
 
+EVENTS = {"first": [], "last": []}   # read by the harness from sys.modules after the generation (also after a crash)
+
+
 class _Recorder(Plugin):
     TAG = "x"
 
     def __init__(self, schema, config_dict):
         super().__init__(schema, config_dict)
-        sec = config_dict.get("tool", {}).get("ariadne-codegen", {})
-        self._path = os.path.join(sec.get("target_package_path", "."), "verif_record_%s.json" % self.TAG)
-        self._events = []
+        self._events = EVENTS[self.TAG]
 
     @staticmethod
     def _caller():
@@ -145,8 +146,6 @@ class _Recorder(Plugin):
 
     def _rec(self, hook, payload, **ctx):
         self._events.append({"hook": hook, "payload": payload, "caller": self._caller(), **ctx})
-        with open(self._path, "w") as f:
-            json.dump(self._events, f)
 
     @staticmethod
     def _op(defn):
